@@ -30,6 +30,9 @@ def name_pool():
             # ordinary words that an implementation might also use for its own parameters or bookkeeping
             "name", "value", "code", "type", "id", "self", "args", "kwargs", "key", "opcode", "serviceaction", "items", "values", "get",
             "update", "pop", "dict", "enum", "data", "result", "bases", "attrs",
+            # words for "nothing found", defaults and bookkeeping
+            "NOT_FOUND", "not_found", "NOTFOUND", "DEFAULT", "default", "MISSING", "missing", "UNKNOWN", "unknown", "NONE", "EMPTY", "table", "_table", "cache", "_cache",
+            "lookup", "reverse", "names", "members", "_keys", "_values", "by_value", "index",
             # names as the standards spell them (not Python identifiers) and identifiers next to Python's reserved words
             "3RD_PARTY_COPY_OUT", "READ(12)", "WRITE 12", "PRE-FETCH", "A.B", "", " ", "in_", "from_", "is_", "class_", "in", "is", "from", "None_", "IN_", "out_"]
     # ... and the same words in another case: names are case-sensitive
@@ -67,6 +70,10 @@ def kind_name(v):
     return type(v).__name__
 
 
+def step_hash(step):
+    return sum(map(ord, step))
+
+
 def compare(ctx, enums, wit, step):
     for idx, (E, model, form) in enumerate(enums):
         try:
@@ -101,7 +108,13 @@ def compare(ctx, enums, wit, step):
             if not same:
                 ctx.fail("C18:lookup_value.%s" % kind_name(v), "enum %d: %s is %r, model %r after %s" % (idx, k, got, v, step), wit)
         # reverse lookup for every model value and one absent value
-        for probe in list(model.values()) + [("absent", object)]:
+        ints = [v for v in model.values() if isinstance(v, int)]
+        # values next to the carried ones: 256 more or less (a byte seen as signed), complements, far away, other types
+        near = []
+        for v in ints[:6]:
+            near += [v - 256, v + 256, -v - 1, -v, v + 1, str(v), float(v) + 0.5, (v,)]
+        far = [-1, -2, -128, -255, -256, -257, 255, 256, 65535, 1 << 40, -(1 << 40), "", "absent", None, (), 0.25]
+        for probe in list(model.values()) + [("absent", object)] + near + far[(step_hash(step) % 4)::4]:
             want = ""
             for k, v in model.items():
                 try:
